@@ -92,7 +92,8 @@ func c18Name(class string, k int) string {
 	case "250":
 		return "s250_" + strings.Repeat("klmnopqrst", 25)[:245]
 	}
-	return []string{"_oauth2_proxy", "my+cookie", "sid"}[k%3]
+	// names with the RFC 6265bis prefixes are ordinary names to the proxy: the configured attributes apply unchanged (round 9)
+	return []string{"_oauth2_proxy", "my+cookie", "sid", "__Host-sess", "__Secure-sid"}[k%5]
 }
 
 // factor levels, in this order: secure, httponly, samesite, path, domains, name, store, per-request, reverse-proxy, csrf-expire, expire, skip-button,
